@@ -1528,8 +1528,13 @@ class SimulationResults(JsonSerializable):
         }
         save_func = ext_to_save_func_mapping[ext]
 
-        # Save the SimulationResults to the file with the desired format
-        save_func(filename)
+        # Save the SimulationResults to the file with the desired format. We
+        # write to a temporary file and then rename it, such that an
+        # interruption while saving never leaves a truncated file (which
+        # could not be loaded later) in place of previously saved results.
+        tmp_filename = '{0}.tmp'.format(filename)
+        save_func(tmp_filename)
+        os.replace(tmp_filename, filename)
         # xxxxxxxxxxxxxxxxxxxxxxxxxxxxxxxxxxxxxxxxxxxxxxxxxxxxxxxxxxxxxxxxx
 
         return filename
